@@ -35,3 +35,4 @@ open('/verif/work/coverage/uncovered_functions.txt','w').write('\n'.join(f"{f}:{
 print(len(fn),'functions instrumented;',len(unc),'never executed under /repo/src')
 PY
 rm -rf $OUT/prof
+rm -f /repo/*.profraw  # written by instrumented build scripts
